@@ -113,6 +113,27 @@ class Catalogue:
                 self.quantities.append({"name": q, "header": "PhQ/%s" % fn, "shape": shape,
                                         "unit": unit if kind == "Dimensional" else None})
 
+    def interesting_integers(self):
+        """integer literals that appear in the library's code (block sizes, capacities, thresholds): container and
+        string sizes are also drawn right at and around them -- boundaries come from the code, not from us"""
+        vals = set()
+        for root, ds, fs in os.walk(PHQ):
+            for f in fs:
+                if not f.endswith(".hpp"):
+                    continue
+                t = _read(os.path.join(root, f))
+                t = re.sub(r'"(?:[^"\\]|\\.)*"', '""', t)
+                for m in re.finditer(r"(?<![\w.])(\d{1,7})(?![\w.]|\s*\.)(?:[uU]?[lL]{0,2})?(?![\w.])", t):
+                    v = int(m.group(1))
+                    if 5 <= v <= 1000000:
+                        vals.add(v)
+        out = set()
+        for v in vals:
+            for w in (v - 1, v, v + 1, 2 * v, 2 * v + 1):
+                if 0 < w <= 1000001:
+                    out.add(w)
+        return sorted(out)[:400]
+
     def quantities_of_unit(self, unit):
         return [q for q in self.quantities if q["unit"] == unit]
 
